@@ -4,7 +4,7 @@ cd "$(dirname "$0")/.."
 for d in seeded/*/; do
   n=$(basename "$d"); p=${n%%-*}
   extra=""
-  case "$n" in C14-B) extra="C12";; C13-B) extra="C20";; C04-A) extra="C13 C05";; C01-D) extra="C15";; C06-C) extra="C07";; C04-C) extra="C06";; C12-C) extra="C15";; C16-C) extra="C11";; C16-D) extra="C15";; C01-F) extra="C15";; C09-F) extra="C03";; C12-G) extra="C18";; C16-H) extra="C18";; C01-I|C01-J) extra="C11";; C05-J) extra="C10";; C08-I) extra="C15";; esac
+  case "$n" in C14-B) extra="C12";; C13-B) extra="C20";; C04-A) extra="C13 C05";; C01-D) extra="C15";; C06-C) extra="C07";; C04-C) extra="C06";; C12-C) extra="C15";; C16-C) extra="C11";; C16-D) extra="C15";; C01-F) extra="C15";; C09-F) extra="C03";; C12-G) extra="C18";; C16-H) extra="C18";; C01-I|C01-J) extra="C11";; C05-J) extra="C10";; C08-I) extra="C15";; C12-I) extra="C11";; C14-I) extra="C18";; C16-J) extra="C15";; esac
   lib/seedcheck.sh "/verif/seeded/$n" "$n" $p $extra 2>&1 | grep -v WARNING
 done
 python3 lib/seedmeta.py
